@@ -248,6 +248,11 @@ fn main() {
                 Err(e) => eprintln!("cannot print: {e:#}"),
             }
         }
+        "c14-dump" => {
+            let (what, bytes) = props::c14::dump_point(args[2].parse().unwrap());
+            eprintln!("{what}");
+            std::fs::write(&args[3], bytes).unwrap();
+        }
         "c14-point" => {
             let pkg = args[3].parse::<usize>().ok();
             let p = props::c14::find_point(&args[2], pkg, &args[4], args[5].parse().unwrap(), args[6].parse().unwrap());
